@@ -328,3 +328,5 @@ Definition verified (w : world) (c : connid) : bool :=
 (** everything a refused request must leave untouched *)
 Definition observables (w : world) := (store w, chars w, outbox w, cblog w,
   map (fun kc => (fst kc, hc_subs (snd kc), hc_crypt (snd kc) || hc_next (snd kc))%bool) (conns w)).
+
+Definition empty_world (cs : list (cid * charac)) : world := mkWorld [] [] cs [] [].
